@@ -209,7 +209,7 @@ func init() {
 		}
 	})
 	witness(Witness{Prop: "C13", Name: "skip-verifier-when-no-messages", File: "pkg/beacon/dkg/result/states.go",
-		Old: "\tsignatures, err := svs.member.VerifyDKGResultSignatures(svs.signatureMessages)", New: "\tif len(svs.signatureMessages) == 0 {\n\t\treturn nil\n\t}\n\tsignatures, err := svs.member.VerifyDKGResultSignatures(svs.signatureMessages)", Rule: "C13.always-verified"})
+		Old: "\tsignatures, err := svs.member.VerifyDKGResultSignatures(", New: "\tif len(svs.signatureMessages) == 0 {\n\t\treturn nil\n\t}\n\tsignatures, err := svs.member.VerifyDKGResultSignatures(", Rule: "C13.always-verified"})
 	extend("C17", func(r *Run) {
 		r.Rule("C17.every-tick", "every tick reaches Strategy.Tick: the tick handler launches it unconditionally", 1)
 		fn := r.MustFn("C17.every-tick", "pkg/net/retransmission", "ScheduleRetransmissions")
